@@ -67,8 +67,10 @@ frame messages `xs` (each identity or compressed with the negotiated encoding, e
 receive limit), and let the body deliver those bytes cut at *arbitrary* positions — `evs` is
 any list of data chunks and `Pending`s whose data concatenates to the wire bytes, optionally
 ended by OK trailers.  Then the decoder yields exactly the messages, in order, then the end of
-the stream (and `None` on every later poll). -/
-theorem C01_decode_any_chunking (cd : Codec α) (cfg : DecCfg) (laws : CodecLaws cd)
+the stream (and `None` on every later poll).  `hgrpc`: the body is a gRPC message stream — a
+request, or a response with HTTP status 200; the body of a response with any other HTTP status is
+not parsed at all (it is classified by that status: `C04_http_table_any_body`). -/
+theorem C01_decode_any_chunking (cd : Codec α) (cfg : DecCfg) (hgrpc : cfg.skipsBody = false) (laws : CodecLaws cd)
     (xs : List (Sent α)) (hxs : ∀ x ∈ xs, SentOk cd cfg x)
     (evs : List BodyEv) (hclean : CleanEvs evs = true)
     (hcut : dataOf evs = Spec.Framing.frames (xs.map (wireOf cd cfg.enc)))
@@ -76,8 +78,8 @@ theorem C01_decode_any_chunking (cd : Codec α) (cfg : DecCfg) (laws : CodecLaws
     (n : Nat) (hn : evs.length + xs.length < n) :
     ∃ k, 1 ≤ k ∧ nonPending (Dec.run cd cfg n Dec.init evs)
       = (xs.map (fun x => Item.msg x.msg)) ++ List.replicate k .none := by
-  have hx : specFrom cd cfg Dec.init (dataOf evs) = (xs.map (·.msg), .clean) := by
-    simp only [specFrom, Dec.init, List.nil_append, hcut]
+  have hx : specFrom cd cfg Dec.init (accepted cfg evs) = (xs.map (·.msg), .clean) := by
+    simp only [specFrom, Dec.init, List.nil_append, accepted_keep hgrpc, hcut]
     exact batch_wire cd cfg laws xs hxs
   obtain ⟨k, hk, hrun⟩ := run_clean cd cfg n Dec.init evs (xs.map (·.msg)) (by simp [PhaseOk, Dec.init])
     hclean hend hx (by simpa using hn)
@@ -85,7 +87,7 @@ theorem C01_decode_any_chunking (cd : Codec α) (cfg : DecCfg) (laws : CodecLaws
 
 
 /-- `C01_decode_any_chunking` with the codec law required only of the messages actually sent. -/
-theorem C01_decode_any_chunking_on (cd : Codec α) (cfg : DecCfg)
+theorem C01_decode_any_chunking_on (cd : Codec α) (cfg : DecCfg) (hgrpc : cfg.skipsBody = false)
     (xs : List (Sent α)) (laws : CodecLawsOn cd xs) (hxs : ∀ x ∈ xs, SentOk cd cfg x)
     (evs : List BodyEv) (hclean : CleanEvs evs = true)
     (hcut : dataOf evs = Spec.Framing.frames (xs.map (wireOf cd cfg.enc)))
@@ -93,8 +95,8 @@ theorem C01_decode_any_chunking_on (cd : Codec α) (cfg : DecCfg)
     (n : Nat) (hn : evs.length + xs.length < n) :
     ∃ k, 1 ≤ k ∧ nonPending (Dec.run cd cfg n Dec.init evs)
       = (xs.map (fun x => Item.msg x.msg)) ++ List.replicate k .none := by
-  have hx : specFrom cd cfg Dec.init (dataOf evs) = (xs.map (·.msg), .clean) := by
-    simp only [specFrom, Dec.init, List.nil_append, hcut]
+  have hx : specFrom cd cfg Dec.init (accepted cfg evs) = (xs.map (·.msg), .clean) := by
+    simp only [specFrom, Dec.init, List.nil_append, accepted_keep hgrpc, hcut]
     exact batch_wire_on cd cfg xs laws hxs
   obtain ⟨k, hk, hrun⟩ := run_clean cd cfg n Dec.init evs (xs.map (·.msg)) (by simp [PhaseOk, Dec.init])
     hclean hend hx (by simpa using hn)
@@ -120,7 +122,7 @@ well-formed `google.rpc.Status` messages (int32 code, UTF-8 message and type URL
 `Any` payloads), serialized by the prost wire model, framed (identity or compressed), cut at
 arbitrary byte positions with arbitrary `Pending`s, decodes to exactly those messages. -/
 theorem C01_decode_protobuf_any_chunking (cz : Enc → Bytes → Bytes) (dz : Enc → Bytes → Option Bytes)
-    (hz : ∀ e b, dz e (cz e b) = some b) (cfg : DecCfg)
+    (hz : ∀ e b, dz e (cz e b) = some b) (cfg : DecCfg) (hgrpc : cfg.skipsBody = false)
     (xs : List (Sent RichError.PbStatus)) (hwf : ∀ x ∈ xs, RichError.WFs x.msg)
     (hxs : ∀ x ∈ xs, SentOk (statusCodec cz dz) cfg x)
     (evs : List BodyEv) (hclean : CleanEvs evs = true)
@@ -129,12 +131,13 @@ theorem C01_decode_protobuf_any_chunking (cz : Enc → Bytes → Bytes) (dz : En
     (n : Nat) (hn : evs.length + xs.length < n) :
     ∃ k, 1 ≤ k ∧ nonPending (Dec.run (statusCodec cz dz) cfg n Dec.init evs)
       = (xs.map (fun x => Item.msg x.msg)) ++ List.replicate k .none :=
-  C01_decode_any_chunking_on (statusCodec cz dz) cfg xs
+  C01_decode_any_chunking_on (statusCodec cz dz) cfg hgrpc xs
     ⟨fun x hx => RichError.prost_status_law x.msg (hwf x hx), hz⟩ hxs evs hclean hcut hend n hn
 
 /-- **Round trip.**  Whatever the encoder emitted for a successful schedule, re-cut arbitrarily
 by the transport and delivered with arbitrary readiness, decodes to the schedule's messages. -/
 theorem C01_roundtrip (cd : Codec α) (laws : CodecLaws cd) (ecfg : EncCfg) (dcfg : DecCfg)
+    (hgrpc : dcfg.skipsBody = false)
     (src : List (SrcEv α)) (hsrc : Successful cd ecfg src)
     (hneg : ecfg.comp = none ∨ ecfg.comp = dcfg.enc)
     (hfit : ∀ m ∈ itemsOf src, (payload cd ecfg m).length ≤ dcfg.limit ∧ (payload cd ecfg m).length < 4294967296)
@@ -181,7 +184,7 @@ theorem C01_roundtrip (cd : Codec α) (laws : CodecLaws cd) (ecfg : EncCfg) (dcf
     · cases hc : ecfg.comp with
       | none => simp [wireOf, flagByte, Framing.payload, hc]
       | some e => rw [hc] at h; simp [wireOf, flagByte, Framing.payload, hc, ← h]
-  have := C01_decode_any_chunking cd dcfg laws xs
+  have := C01_decode_any_chunking cd dcfg hgrpc laws xs
     (by
       intro x hx
       simp only [xs, List.mem_map] at hx
@@ -204,8 +207,8 @@ example :
     let xs : List (Sent Bytes) := [⟨[1, 2, 3], false⟩, ⟨[], false⟩, ⟨[9], false⟩]
     let evs : List BodyEv := [.data [0, 0, 0], .data [0, 3, 1, 2], .pending, .data [3, 0, 0, 0], .data [0, 0, 0, 0, 0, 0, 1, 9]]
     CleanEvs evs = true ∧ dataOf evs = Spec.Framing.frames (xs.map (wireOf idCodec cfg.enc)) ∧
-      (∀ x ∈ xs, SentOk idCodec cfg x) := by
-  refine ⟨by decide, by decide, ?_⟩
+      cfg.skipsBody = false ∧ (∀ x ∈ xs, SentOk idCodec cfg x) := by
+  refine ⟨by decide, by decide, by decide, ?_⟩
   intro x hx
   simp only [List.mem_cons, List.not_mem_nil, or_false] at hx
   rcases hx with rfl | rfl | rfl <;> simp [SentOk, wireOf, idCodec, DecCfg.limit, defaultMaxRecv]
